@@ -20,14 +20,20 @@
 (*   "truthy" / "falsy"  docs only say "returns truthy"                         *)
 (*   "marker" one of the documented error markers                               *)
 (*   "csv"    the result parses (RFC 4180, Csv.tla) back to args                *)
+(*   "notnum" the result is not a decimal numeral (an infinity or NaN has no    *)
+(*            floor / ceil / rounded numeral; its spelling is not documented)   *)
 (*   "any"    outside the documented domain: nothing is demanded                *)
 (* ce: "y" compilation must report an error, "n" must not, "*" either.          *)
 (*                                                                              *)
 (* Numbers: TLC integers are 32 bit.  Integer arguments with at most 9 digits   *)
 (* are evaluated; every intermediate result is guarded (|x| <= 10^9), beyond    *)
 (* that the expectation is "any".  Decimals are exact scaled integers           *)
-(* [neg, a, s] = (+/-) a / 10^s with at most 9 significant digits.              *)
-EXTENDS Csv
+(* [neg, a, s] = (+/-) a / 10^s with at most 9 significant digits.  floor, ceil  *)
+(* and round are also defined on decimals of any length that binary64 holds      *)
+(* exactly (ExprScalarBig: digit-sequence arithmetic) - values beyond int64,     *)
+(* 2^52 + 0.5, ... - and a rounding tie is one of the two neighbours.            *)
+(* Text is UTF-8 (ExprScalarText): white space is Unicode White_Space.           *)
+EXTENDS Csv, ExprScalarText, ExprScalarBig
 
 LIM == 1000000000
 
@@ -63,6 +69,7 @@ FalsyR      == [k |-> "falsy",  v |-> <<>>, alts |-> <<>>, ce |-> "n"]
 CsvR        == [k |-> "csv",    v |-> <<>>, alts |-> <<>>, ce |-> "n"]
 OneOf(a)    == [k |-> "oneof",  v |-> <<>>, alts |-> a,    ce |-> "n"]
 OneOfCI(a)  == [k |-> "oneof",  v |-> <<1>>, alts |-> a,   ce |-> "n"]
+NotNumR     == [k |-> "notnum", v |-> <<>>, alts |-> <<>>, ce |-> "n"]
 Bool(b)     == IF b THEN TruthyR ELSE FalsyR
 Bool1(b)    == IF b THEN Out(ONE) ELSE Out(<<>>)
 
@@ -85,11 +92,17 @@ TMod(a, b) == a - b * TDiv(a, b)
 
 \* ---------------------------------------------------------------- truthiness
 \* "Truthiness is the presence of a value. False is an empty value (or only whitespace)"
+\* Values are UTF-8 text: "whitespace" is the Unicode property White_Space (no-break space, next
+\* line, U+2000..U+200A, line / paragraph separator, ideographic space, ... as well as the six ASCII
+\* blanks).  "unknown": ill-formed UTF-8, or nothing but blanks and characters that are neither
+\* White_Space nor certainly visible (controls, format characters, zero width space, ...).
 TruthClass(s) ==
   IF s = <<>> THEN "empty"
   ELSE IF \A i \in 1..Len(s) : IsAsciiSpace(s[i]) THEN "blank"
   ELSE IF \E i \in 1..Len(s) : s[i] >= 33 /\ s[i] <= 126 THEN "true"
-  ELSE "unknown"                                          \* only spaces and non-ASCII bytes
+  ELSE IF U8AllBlank(s) THEN "blank"
+  ELSE IF U8SomeVisible(s) THEN "true"
+  ELSE "unknown"
 \* if / unless / switch: whitespace-only is false (general rule of the docs)
 CondClass(s) == LET c == TruthClass(s) IN IF c = "blank" THEN "empty" ELSE c
 \* and / or / not: the docs contradict each other on whitespace-only -> outside the domain
@@ -167,7 +180,7 @@ RoundScaled(a, s, p) ==
   IF p >= s THEN
     IF a <= LIM \div P10(p - s) THEN [st |-> "ok", q |-> a * P10(p - s)] ELSE [st |-> "ovf", q |-> 0]
   ELSE LET D == P10(s - p)  q == a \div D  r == a % D IN
-       IF 2 * r = D THEN [st |-> "tie", q |-> 0]
+       IF 2 * r = D THEN [st |-> "tie", q |-> q]            \* q and q + 1 are equally near
        ELSE [st |-> "ok", q |-> q + (IF 2 * r > D THEN 1 ELSE 0)]
 
 \* n / d (n >= 0, d > 0) rounded to p decimals, scaled by 10^p, by long division
@@ -278,15 +291,57 @@ EvalSqrt(s) ==         \* perfect squares up to 10^6
        ELSE LET R == {r \in 0..1000 : r * r = a} IN IF R = {} THEN AnyR ELSE Out(Itoa(CHOOSE r \in R : TRUE))
 
 \* ================================================================= floor ceil round
+\* an infinity / NaN spelling (ParseFloat accepts them): no numeral can be its floor, ceil or rounding
+IsInfNan(s) == s # <<>> /\ InfNanWord(LowerASCII(IF s[1] \in {43, 45} THEN Tail(s) ELSE s))
+\* a decimal too long for the scaled-integer model that binary64 holds exactly
+IsBigExact(s) == DecClass(s) = "decbig" /\ LET p == DecParts(s) IN F64Exact(p.ip, p.fp)
+
+\* scientific notation: [sign] digits [. digits] (e|E) [sign] digits, exponent of at most two digits.  ExpPlain is the
+\* same number written without an exponent (the decimal point moved).  Whether such a spelling is a number at all is not
+\* documented: the documented result for that number, or the error marker for non-numeric input, never another number.
+ExpIdx(s) == LET S == {i \in 1..Len(s) : s[i] \in {101, 69}} IN IF Cardinality(S) = 1 THEN MinOf(S) ELSE 0
+IsExpForm(s) ==
+  LET i == ExpIdx(s) IN
+  /\ i > 1 /\ i < Len(s)
+  /\ DecOK(SubSeq(s, 1, i - 1))
+  /\ LET x == SubSeq(s, i + 1, Len(s)) IN ParseIntOK(x) /\ Len(IntDigits(x)) <= 2
+ExpPlain(s) ==
+  LET i == ExpIdx(s)
+      m == SubSeq(s, 1, i - 1)
+      e == ParseIntVal(SubSeq(s, i + 1, Len(s)))
+      neg == m[1] = MINUS
+      b == IF m[1] \in {43, 45} THEN Tail(m) ELSE m
+      d == IndexByte(b, DOT)
+      ipr == IF d = 0 THEN b ELSE SubSeq(b, 1, d - 1)
+      fpr == IF d = 0 THEN <<>> ELSE SubSeq(b, d + 1, Len(b))
+      digs == ipr \o fpr
+      pos == Len(ipr) + e                                    \* digits before the decimal point
+      body == IF pos <= 0 THEN <<48, DOT>> \o Zeros(0 - pos) \o digs
+              ELSE IF pos >= Len(digs) THEN digs \o Zeros(pos - Len(digs))
+              ELSE SubSeq(digs, 1, pos) \o <<DOT>> \o SubSeq(digs, pos + 1, Len(digs))
+  IN Signed(neg, body)
+\* the expectation e for the plain spelling, opened to "not a number at all"
+OrNotNumeric(e) ==
+  IF e.k = "out" THEN [k |-> "oneof", v |-> <<>>, alts |-> <<e.v, BADTYPE>>, ce |-> "*"]
+  ELSE IF e.k = "oneof" THEN [e EXCEPT !.alts = Append(e.alts, BADTYPE), !.ce = "*"]
+  ELSE AnyR
+
+RECURSIVE EvalFloorCeil(_, _)
 EvalFloorCeil(f, s) ==
   LET c == DecClass(s) IN
+  IF c = "other" /\ IsExpForm(s) THEN OrNotNumeric(EvalFloorCeil(f, ExpPlain(s))) ELSE
   IF c = "no" THEN ErrNum
+  ELSE IF IsInfNan(s) THEN NotNumR
+  ELSE IF IsBigExact(s) THEN
+       LET p == DecParts(s) IN Out(IF f = "floor" THEN BnFloor(p.neg, p.ip, p.fp) ELSE BnCeil(p.neg, p.ip, p.fp))
   ELSE IF c # "dec" THEN AnyR
   ELSE LET d == Dec(s)  m == DecM(d)  D == P10(d.s) IN
        IF f = "floor" THEN Out(Itoa(m \div D))              \* TLA+ \div floors
        ELSE Out(Itoa(0 - ((0 - m) \div D)))
 
+RECURSIVE EvalRound(_)
 EvalRound(args) ==     \* {round val [precision=0]}
+  IF DecClass(args[1]) = "other" /\ IsExpForm(args[1]) THEN OrNotNumeric(EvalRound([args EXCEPT ![1] = ExpPlain(args[1])])) ELSE
   LET pc == IF Len(args) = 2 THEN IntClass(args[2]) ELSE "small"
       p  == IF Len(args) = 2 /\ pc = "small" THEN IntVal(args[2]) ELSE 0
       c  == DecClass(args[1])
@@ -294,10 +349,20 @@ EvalRound(args) ==     \* {round val [precision=0]}
   IF pc = "no" THEN Marker
   ELSE IF pc # "small" \/ p < 0 \/ p > 6 THEN AnyR
   ELSE IF c = "no" THEN ErrNum
+  ELSE IF IsInfNan(args[1]) THEN NotNumR
+  ELSE IF IsBigExact(args[1]) THEN
+       \* exact arithmetic on the digits; which neighbour a tie goes to is not documented
+       LET dp == DecParts(args[1])  r == BnRound(dp.ip, dp.fp, p)
+           txt(Q) == Signed(dp.neg, BnFmt(Q, p)) IN
+       IF dp.neg /\ r.dn = <<>> THEN AnyR                    \* "-0" / "0" / "-1"
+       ELSE IF r.st = "tie" THEN OneOf(<<txt(r.dn), txt(r.up)>>)
+       ELSE Out(txt(IF r.st = "gt" THEN r.up ELSE r.dn))
   ELSE IF c # "dec" THEN AnyR
   ELSE LET d == Dec(args[1])  r == RoundScaled(d.a, d.s, p) IN
-       IF r.st # "ok" THEN AnyR
+       IF r.st = "ovf" THEN AnyR
        ELSE IF d.neg /\ r.q = 0 THEN AnyR                    \* "-0" / "0": not defined by the docs
+       ELSE IF r.st = "tie" THEN                             \* the docs do not say which neighbour
+            OneOf(<<Signed(d.neg, FmtFixed(r.q, p)), Signed(d.neg, FmtFixed(r.q + 1, p))>>)
        ELSE Out(Signed(d.neg, FmtFixed(r.q, p)))
 
 \* ================================================================= comparison and logic
@@ -626,5 +691,6 @@ Matches(f, args, e, got, cerr) ==
        [] e.k = "truthy" -> TruthClass(got) = "true"
        [] e.k = "falsy" -> TruthClass(got) \in {"empty", "blank"}
        [] e.k = "marker" -> got \in Markers
+       [] e.k = "notnum" -> ~DecOK(got)
        [] e.k = "csv" -> LET d == CsvDecodeRecord(got) IN d.ok /\ d.fields = args
 =============================================================================
